@@ -156,6 +156,8 @@ def programs():
         "t%u(1)%v(2, 3) = w%x",
         "character :: c1*(n+1) = 'x', c2*4 = 'abcd'",
         "Alpha = Beta(Gamma, 1) + dELTA",
+        "x = ((a+b)) * (a+b)", "y = (a+b) * ((a+b))", "z = f((a+b)) + (a+b)", "s = \"'a b'\" // 'a b'", "w = (a+b) * (a+b) + 'p q' // 'p q'", "v = g((1, 2), (1, 2)) + ((1, 2))",
+        "u = 'a+b' // c(a+b) // \"a+b\"", "r = 1.0e3 * (1.0e3) + h(1.0e3)",
         "CALL MySub(ArgOne, argTwo)",
     ]
     for i, s in enumerate(extra):
@@ -177,6 +179,12 @@ def programs():
     out.append(("layout:0", "program p\n  msg = 'alpha&\n      &   beta  '\nend program p\n", "f2003"))
     out.append(("layout:1", "program p\n  x = 1.0e&\n  &-3 + y\nend program p\n", "f2003"))
     return out
+
+
+def bracket_counts(text):
+    t = re.sub(r"'(?:[^'\n]|'')*'|\"(?:[^\"\n]|\"\")*\"", "''", text)
+    t = re.sub(r"\(\s*\)", "", t)
+    return dict(open=t.count("("), close=t.count(")"), square=t.count("["), constructor=t.count("(/"))
 
 
 def inflated_programs():
@@ -220,6 +228,13 @@ def run(tier):
                 continue
             want = lexical_content(strip_comments(src))
             got = lexical_content(strip_comments(str(tree)))
+            # brackets are tokens too: apart from empty pairs (the one canonicalisation that adds or removes parentheses) the
+            # printed text has as many of each as the source
+            pc_src, pc_out = bracket_counts(strip_comments(src)), bracket_counts(strip_comments(str(tree)))
+            if pc_src != pc_out:
+                failures.append(dict(obligation="tokens#same_number_of_brackets", witness=dict(program=name, std=std, options=kw, source=src),
+                                     observed=dict(printed=str(tree)[:400], source_counts=pc_src, printed_counts=pc_out)))
+                continue
             if "F2PY_" in str(tree) and "F2PY_" not in src:
                 failures.append(dict(obligation="tokens#no_internal_placeholder_in_printed_text", witness=dict(program=name, std=std, options=kw, source=src),
                                      observed=dict(printed=str(tree)[:400])))
